@@ -278,6 +278,10 @@ def execute(sc, ctx):
                 ctx.hit("record_%s_header" % h["kind"])
                 if op.get("fault") and status == "fault":
                     ctx.hit("aborted_recording_in_history")
+            elif kind == "r_set_subblocks":
+                if op["id"] in backends:
+                    backends[op["id"]].num_subblocks = op["n"]
+                ctx.event(kind, op["n"])
             elif kind == "r_replay_requests":
                 # advance a same-seed antenna exactly as an earlier recording on another antenna did
                 src, dst = logs[op["src"]], ants[op["dst"]]
